@@ -44,6 +44,7 @@ func init() {
 			ruleInternalKeyIsNotAMethod(c, "R10")
 			ruleListHeaderReadCompletely(c, "R11")
 			rulePreflightNotAgainstRootUnion(c, "R12")
+			ruleResponseHeadersAreNotWiped(c, "R13")
 			ruleHeaderNameCase(c, "R12")
 		},
 	})
@@ -66,6 +67,7 @@ func init() {
 			ruleCORSOptionPlumbing(c, "R10")
 			ruleEmptyListElementsIgnored(c, "R11")
 			ruleNodeMethodSetReadOnce(c, "R12")
+			ruleResponseHeadersAreNotWiped(c, "R13")
 		},
 	})
 }
@@ -1341,6 +1343,35 @@ func ruleCorsProvenance(c *Ctx, rule string) {
 		if base, field, val, ok := fieldStoreAny(in); ok && base == "recv" {
 			got[field] = append(got[field], c.O.Of(val).String())
 		}
+		// a helper that fills the field through a pointer: joinHeaders(&c.allowHeadersString, c.AllowHeaders)
+		call := an.CallOf(in)
+		if call == nil {
+			return
+		}
+		g := an.StaticCallee(call)
+		if g == nil || !an.InModule(g) || len(g.Blocks) == 0 {
+			return
+		}
+		for i, arg := range call.Args {
+			fa, isFA := arg.(*ssa.FieldAddr)
+			if !isFA || an.AP(fa.X) != "recv" || i >= len(g.Params) {
+				continue
+			}
+			field := an.FieldName(fa.X.Type(), fa.Field)
+			an.AllInstrs(g, func(w ssa.Instruction) {
+				st, isSt := w.(*ssa.Store)
+				if !isSt || st.Addr != ssa.Value(g.Params[i]) {
+					return
+				}
+				t := c.O.Of(st.Val).String()
+				for j, p := range g.Params {
+					if j < len(call.Args) {
+						t = strings.ReplaceAll(t, "param:"+p.Name(), c.O.Of(call.Args[j]).String())
+					}
+				}
+				got[field] = append(got[field], t)
+			})
+		}
 	})
 	for _, f := range []string{"exposedHeadersString", "maxAgeString"} {
 		good := len(got[f]) == 1 && got[f][0] == wantStore[f]
@@ -1377,6 +1408,22 @@ func membershipAssume(cond ssa.Value) (bool, bool) {
 		return false, false
 	}
 	call, ok := bo.X.(*ssa.Call)
+	if ok {
+		// a list that has the member tested for is not empty: len(node.Methods()) == 0 is false
+		if cc, isLen := builtinCall(call, "len"); isLen {
+			if mc, isCall := cc.Args[0].(*ssa.Call); isCall && an.CalleeName(&mc.Call) == "invoke:types.Node.Methods" {
+				if kc, isK := bo.Y.(*ssa.Const); isK && an.ConstKey(kc) == "0" {
+					switch bo.Op {
+					case token.EQL, token.LEQ:
+						return neg, true
+					case token.NEQ, token.GTR:
+						return !neg, true
+					}
+				}
+			}
+			return false, false
+		}
+	}
 	if !ok || (an.CalleeName(&call.Call) != "slices.Index" && an.CalleeName(&call.Call) != "slices.IndexFunc") {
 		return false, false
 	}
